@@ -107,7 +107,7 @@ def lib_sources(repo):
 
 HARNESS_BINS = {
     # name: (sources in /verif/harness, extra link flags, needs fuzz lib)
-    "nvserve": (["nvserve.cpp", "nv_api.cpp"], "-Wl,--wrap=exit", False),
+    "nvserve": (["nvserve.cpp", "nv_api.cpp", "nv_sim.cpp"], "-Wl,--wrap=exit", False),
     "nvx": (["nvx.cpp", "nv_api.cpp", "ref_msp430.cpp", "ref_rv32i.cpp"], "-Wl,--wrap=exit -lrapidcheck", False),
     "fuzz_asm": (["fuzz_asm.cpp", "nv_api.cpp"], "-Wl,--wrap=exit -fsanitize=fuzzer", True),
     "fuzz_util_file": (["fuzz_util_file.cpp", "nv_api.cpp"], "-Wl,--wrap=exit -fsanitize=fuzzer", True),
